@@ -36,6 +36,8 @@ Op grammar (one label per record; observation after `=>`):
   xlisten c<i> L<n> <mask|-> u<j>… [hold]          => ack <kinds|-> u<j>… [parked] | noack   (a further, raw subscriptions/listen of a connected 2026-07-28 session: any kinds and any number of distinct URIs; noack: the SubscribeHandler refused one of them)
   xend c<i> <m|L<n>> [hold]                        => ok | ok cancel-held   (that listen is cancelled and its handler has ended; r<j> ends through unsubscribe; hold: the client's notifications/cancelled is held in its transport until `canceldone`)
   unsubscribe c<i> u<j> hold                       => ok cancel-held   (2026-07-28: ClientSession.Unsubscribe has returned — cs.resourceSubs no longer has the URI —, the cancellation is held)
+  xend c<i> L<n> park / unsubscribe c<i> u<j> park => ok unsub-held    (the stream has ended on the server; its clean-up is parked in the application's UnsubscribeHandler, before its first critical section, until `unsubdone`)
+  unsubdone c<i> <r<j>|L<n>>                       => ok          (that UnsubscribeHandler call returns; the clean-up runs)
   ackdone c<i> <m|r<j>|L<n>>                       => ok          (the handler held right after its ack write goes on)
   close c<i>                                       => ok
   rupdated u<j> [names u<k>]                       => sent@<t> …   (names: the notification the subscribers of u<j> get names u<k>, whose content changed)
@@ -396,16 +398,54 @@ structure DState where
   sys : Sys.State := {}
   mon : MState := {}
 
+/-! ### `park` / `unsubdone`: the end of a listen parked in the application's UnsubscribeHandler
+
+`xend c<i> L<n> park` / `unsubscribe c<i> u<j> park`: the cancellation reaches the server, the handler's context
+ends, its deferred functions begin: the FIRST of them is `unsubscribeListen` for the last URI the stream was
+granted, and its first statement is the call of `ServerOptions.UnsubscribeHandler` — application code, outside
+the server lock, before every critical section of the clean-up (regenerated fact `notify.listen_handover`:
+`unsubscribeListen:handler,lock,…`).  The harness parks THAT call until `unsubdone c<i> <name>`.  In the code
+that exists nothing has been read or written at that point, so for the typed model the window is the one of
+a cancellation held on its way (`hold` … `canceldone`: the stream is registered in every table, `listenEnd`
+runs at the release); the tokens are mapped onto those labels here, the observation is spelled
+`ok unsub-held`.  A tree whose clean-up reads the tables BEFORE it calls the application and acts on what it
+read afterwards (check-then-act around user code) differs inside that window only.  `park` is a label only
+for a live listen that was granted a URI (no other end calls the handler): anything else is `bad-op`. -/
+
+def isPark (toks : List String) : Bool := toks.getLast? == some "park"
+
+/-- the listen the op ends: (slot, request id) -/
+def endedListen (toks : List String) : Option (Slot × Nat) :=
+  match toks with
+  | ["xend", c, name, _] => do some (← parseSlot c, ← parseName name)
+  | ["unsubscribe", c, u, _] => do some (← parseSlot c, 2 * (← parseUri u) + 1)
+  | _ => none
+
+def parkable (y : Sys.State) (toks : List String) : Bool :=
+  match endedListen toks with
+  | some (i, id) => y.srv.listens.any (fun l => l.sid == (y.slots i).sid && l.id == id && !l.uris.isEmpty)
+  | none => false
+
+def normToks (toks : List String) : List String :=
+  if isPark toks then toks.dropLast ++ ["hold"] else
+  match toks with
+  | "unsubdone" :: rest => "canceldone" :: rest
+  | _ => toks
+
 def engine : Engine DState where
   init := {}
   step d toks impl :=
     match toks with
     | ["reset"] => ({}, { model := "ok" })
     | _ =>
-      let op := parseOp toks
-      let (sys', model) := Sys.sysStep d.sys op (hintOf impl)
-      let (mon', viol) := monStep d.mon ⟨op, parseObs op impl⟩
-      ({ sys := sys', mon := mon' }, { model := obsStr model, violated := viol.map clauseText })
+      let park := isPark toks
+      let op := if park && !parkable d.sys toks then Op.bad else parseOp (normToks toks)
+      let impl' := if park && impl == "ok unsub-held" then "ok cancel-held"
+                   else if impl == "ok cancel-held" && park then "?" else impl
+      let (sys', model) := Sys.sysStep d.sys op (hintOf impl')
+      let (mon', viol) := monStep d.mon ⟨op, parseObs op impl'⟩
+      let shown := if park && obsStr model == "ok cancel-held" then "ok unsub-held" else obsStr model
+      ({ sys := sys', mon := mon' }, { model := shown, violated := viol.map clauseText })
 
 end Notify.Drv
 
